@@ -1,3 +1,4 @@
 //! Positive controls: tiny known-bad constructs that the zero-expected rules must flag on every run.
 #![allow(dead_code, unused)]
 pub mod ordctl;
+pub mod recctl;
